@@ -60,7 +60,7 @@ def fg_dops() -> List[Dict[str, Any]]:
 
 def payload_params(svc: Dict[str, Any], layer: str, msg: str) -> List[Dict[str, Any]]:
     typ, layout = svc["type"], svc["layout"]
-    if layout in ("top", "toppath"):
+    if layout in ("top", "toppath", "swap"):  # swap: the inherited definition; a second payload byte follows and is tolerated
         return [{"t": "VALUE", "name": "id", "dop": TYPE_DOPS[typ]["name"]}]
     if layout == "struct":
         return [{"t": "VALUE", "name": "st", "dop": "S_" + typ}]
@@ -88,7 +88,7 @@ def out_param_path(svc: Dict[str, Any], tgt: str) -> Dict[str, str]:
     layout = svc["layout"]
     if layout in ("tworesp", "tworesp_r"):
         return {"snref": "rev"}
-    if layout == "top":
+    if layout in ("top", "swap"):
         return {"snref": "id"}
     if layout == "toppath":
         return {"snpathref": "id"}
@@ -98,8 +98,9 @@ def out_param_path(svc: Dict[str, Any], tgt: str) -> Dict[str, str]:
                           "ffield": "fl.fl2.id"}[layout]}
 
 
-def service_parts(svc: Dict[str, Any], layer: str, own: bool, dop_layer: str):
-    """-> (msgs, svc spec) for one identification service defined in `layer` (DOPs live in dop_layer)."""
+def service_parts(svc: Dict[str, Any], layer: str, own: bool, dop_layer: str, alt: bool = False):
+    """-> (msgs, svc spec) for one identification service defined in `layer` (DOPs live in dop_layer).
+    alt (layout "swap"): same request, but `id` is read from the second payload byte (a parameter `skip` covers the first)."""
     name = svc["name"]
     did = svc["did"] | (OWN_DID_FLAG if own else 0)
     rq = {"kind": "REQUEST", "name": "RQ_" + name,
@@ -109,6 +110,7 @@ def service_parts(svc: Dict[str, Any], layer: str, own: bool, dop_layer: str):
           "params": [{"t": "CODED-CONST", "name": "sid", "dct": U8, "value": 0x62},
                      {"t": "CODED-CONST", "name": "did", "dct": U16, "value": did}]
           + ([{"t": "CODED-CONST", "name": "pad", "dct": U8, "value": OWN_PAD}] if (own or svc["type"] in PADDED_TYPES) else [])
+          + ([{"t": "VALUE", "name": "skip", "dop": TYPE_DOPS[svc["type"]]["name"]}] if alt else [])
           + payload_params(svc, layer, "PR_" + name)}
     s = {"name": name, "request": "RQ_" + name, "pos": ["PR_" + name], "neg": ["NR"]}
     if svc["layout"] in ("tworesp", "tworesp_r"):
@@ -176,13 +178,14 @@ def variants_db(services: Dict[str, Dict[str, Any]], cands: Sequence[Dict[str, A
         else:
             lay.update(type="BASE-VARIANT", parents=[{"layer": "FG"}])
         own = c.get("own") or []
-        if own:
+        alt = c.get("alt") or []
+        if own or alt:
             # own re-definition of the service (same short name overrides the inherited one); its messages use the
             # DOPs of FG, which are inherited, through short-name references
             omsgs: List[Dict[str, Any]] = []
             osvcs: List[Dict[str, Any]] = []
-            for sn in own:
-                m, s = service_parts(services[sn], name, True, "FG")
+            for sn in list(own) + list(alt):
+                m, s = service_parts(services[sn], name, sn in own, "FG", alt=sn in alt)
                 for msg in m:
                     for p in msg["params"]:
                         if "dop" in p or p["t"] == "TABLE-KEY":
